@@ -15,7 +15,8 @@ TECH = "Verus function contracts on the real code, extracted mechanically from /
 
 CLAIMED = {
     "C01": {
-        "text": "Word-level half of the cardinal round trip, for " + LANGS7 + ": (L3a) the real `apply` of each language is proved equal, arm by arm, to a "
+        "text": "Word-level half of the cardinal round trip, for " + LANGS7 + ": text2digits/exec_group are proved to offer every whitespace-separated, "
+                "lower-cased word in order to one fresh builder through the language's apply and to render that builder (chain contract); (L3a) the real `apply` of each language is proved equal, arm by arm, to a "
                 "frozen model table (word -> guard -> DigitString operation); (L3b) for every cardinal word of an independently written grammar table the model "
                 "performs exactly the place-value instruction the grammar prescribes (digits, guard, blocking flags), and a comma is never a number word; the "
                 "DigitString operations themselves have strongest-postcondition contracts (C12). For de/it/nl the splitter's pattern list in Default::default is "
@@ -58,7 +59,8 @@ CLAIMED = {
     "C05": {
         "text": "WordToDigitParser::push / string_and_value contracts: a decimal-separator word is accepted only after a non-ordinal number, only once, and is reported "
                 "as Incomplete; integer and fractional parts live in two builders; the rendered text is int + mark + frac through the language's "
-                "format_decimal_and_value (proved per language: ',' or '.', every digit and leading zero of both parts kept); DigitString::push appends verbatim; "
+                "format_decimal_and_value (proved per language: exactly int ++ ',' (en: '.') ++ frac with every digit and leading zero of both parts, value exactly "
+                "parse_f64(int.frac)); DigitString::push appends verbatim; "
                 "German apply_decimal is proved to be digit dictation. NOT proved: whole-phrase decimal round trip (composition).",
         "note": TRUST + MECH + "f64 values are defined as parse_f64 of the rendered digits (assumed).",
         "design_ref": "DESIGN.md §12.3 C05",
